@@ -74,6 +74,16 @@ class GarbageCollector:
         """
         stats = {"data_files": 0, "manifest_files": 0, "manifest_lists": 0}
 
+        # 0. Load in-flight protection markers BEFORE reading the metadata.
+        # A transaction removes its markers only after its commit point. Reading
+        # the markers first means every file is covered by at least one of the
+        # two reads: either its marker is still there (protected), or the commit
+        # that removed the marker happened before the metadata read below, which
+        # therefore already sees the file as reachable. The opposite order had a
+        # window (commit lands between the two reads) in which a just-committed
+        # file older than the grace period was neither reachable nor protected.
+        protected_files = self._load_inflight_protection(inflight_timeout_ms)
+
         # 1. Refresh metadata to get latest view
         metadata = self.metadata_manager.refresh()
         if not metadata:
@@ -130,8 +140,7 @@ class GarbageCollector:
         logger.info(f"Found reachable: {len(reachable_manifest_lists)} manifest lists, "
                     f"{len(reachable_manifests)} manifests, {len(reachable_data_files)} data files")
 
-        # 3. Load in-flight protection markers (and sweep abandoned ones)
-        protected_files = self._load_inflight_protection(inflight_timeout_ms)
+        # 3. In-flight protection was loaded in step 0
         if protected_files:
             logger.info(f"Protecting {len(protected_files)} in-flight files from GC")
 
